@@ -614,3 +614,186 @@ Proof.
   unfold ct_round at 1 2. cbn [ct_precise ct_amount]. rewrite precise_or_toQ.
   apply (cat_amounts_refine cr c ct ic H).
 Qed.
+
+(* ------------------------------------------------------------------------------------------ *)
+(* totals and payments                                                                         *)
+(* ------------------------------------------------------------------------------------------ *)
+Lemma den_sub a f b q : den a f -> toQ b == q -> den (sub a b) (mkF (fq f - rnd (fp f) q) (fp f)).
+Proof.
+  intros [H1 H2] Hb. split; cbn [fq fp]; [|exact H2]. rewrite toQ_sub, H1, H2, Hb. reflexivity.
+Qed.
+
+Lemma den_add a f b q : den a f -> toQ b == q -> den (add a b) (mkF (fq f + rnd (fp f) q) (fp f)).
+Proof.
+  intros [H1 H2] Hb. split; cbn [fq fp]; [|exact H2]. rewrite toQ_add, H1, H2, Hb. reflexivity.
+Qed.
+
+Lemma den_Qeq a f g : den a f -> fq f == fq g -> fp f = fp g -> den a g.
+Proof. intros [H1 H2] E1 E2. split; [rewrite H1; exact E1|rewrite H2; exact E2]. Qed.
+
+Lemma den_sub_opt a f o fo : den a f -> orel den o fo ->
+  den (match o with Some x => sub a x | None => a end) (mkF (fq f - rnd (fp f) (oQ fo)) (fp f)).
+Proof.
+  intros H O. destruct o as [x|]; destruct fo as [fx|]; try contradiction; cbn [oQ].
+  - apply den_sub; [exact H|apply O].
+  - eapply den_Qeq; [exact H| |reflexivity]. cbn [fq]. rewrite rnd_zero. ring.
+Qed.
+
+Lemma den_add_opt a f o fo : den a f -> orel den o fo ->
+  den (match o with Some x => add a x | None => a end) (mkF (fq f + rnd (fp f) (oQ fo)) (fp f)).
+Proof.
+  intros H O. destruct o as [x|]; destruct fo as [fx|]; try contradiction; cbn [oQ].
+  - apply den_add; [exact H|apply O].
+  - eapply den_Qeq; [exact H| |reflexivity]. cbn [fq]. rewrite rnd_zero. ring.
+Qed.
+
+Lemma advance_refines c twt ftwt r : den twt ftwt -> den (advance_amount c twt r) (s_advance rnd c ftwt r).
+Proof.
+  intros H. unfold advance_amount, s_advance. apply den_rescale_up.
+  destruct (pr_pct r) as [p|]; [apply den_mul; [exact H|reflexivity]|apply den_of_amount].
+Qed.
+
+(* a presented total: the value rounded to the currency's decimals, held at c decimals *)
+Definition pres (c : nat) (a : amount) (q : Q) : Prop := toQ a == q /\ exp a = c.
+Definition opres (c : nat) (o : option amount) (q : option Q) : Prop :=
+  match o, q with Some a, Some x => pres c a x | None, None => True | _, _ => False end.
+
+Lemma pres_rescale c a q : toQ a == q -> pres c (rescale a c) (rnd c q).
+Proof. intros H. split; [rewrite toQ_rescale, H; reflexivity|apply rescale_exp]. Qed.
+
+Lemma due_refines c payable fpay r : den payable fpay -> pres c (due_amount c payable r) (s_due rnd c fpay r).
+Proof.
+  intros H. unfold due_amount, s_due. apply pres_rescale.
+  pose proof (opt_nonzero_spec (pr_pct r)) as N.
+  destruct (opt_nonzero (pr_pct r)) as [p|]; destruct (nonzero_pct (pr_pct r)) as [x|]; try contradiction.
+  - unfold pct_of. apply (den_mul payable fpay p x H). rewrite N. reflexivity.
+  - reflexivity.
+Qed.
+
+(* what it means for a calculated document to present the specified figures *)
+Definition refines (c : nat) (t : totals) (it : itotals) : Prop :=
+  Forall2 lout_den (t_lines t) (i_lines it) /\
+  pres c (t_sum t) (i_sum it) /\
+  opres c (t_discount t) (i_discount it) /\
+  opres c (t_charge t) (i_charge it) /\
+  opres c (t_tax_included t) (i_tax_included it) /\
+  pres c (t_total t) (i_total it) /\
+  pres c (t_tax t) (i_tax it) /\
+  pres c (t_twt t) (i_twt it) /\
+  pres c (t_payable t) (i_payable it) /\
+  opres c (t_advances t) (i_advances it) /\
+  opres c (t_due t) (i_due it) /\
+  Forall2 den (t_dd t) (i_dd it) /\
+  Forall2 den (t_cc t) (i_cc it) /\
+  Forall2 (pres c) (t_adv_rows t) (i_adv_rows it) /\
+  Forall2 (pres c) (t_dues t) (i_dues it).
+
+Lemma opres_rescale c o fo : orel den o fo ->
+  opres c (match o with Some a => Some (rescale a c) | None => None end)
+          (match option_map fq fo with Some q => Some (rnd c q) | None => None end).
+Proof.
+  intros H. destruct o as [a|]; destruct fo as [f|]; try contradiction; cbn [option_map opres]; [|exact I].
+  apply pres_rescale, H.
+Qed.
+
+Theorem calc_refines_ideal d t : calculate d = Totals t ->
+  exists it, ideal d = Some it /\ refines (d_c d) t it.
+Proof.
+  unfold calculate, ideal, spec. cbv zeta.
+  set (c := d_c d). set (cr := d_currency_rule d).
+  pose proof (calc_lines_refines cr c (d_cur d) (d_rates d) (d_lines d)) as PL.
+  destruct (calc_lines cr c (d_cur d) (d_rates d) (d_lines d)) as [lcs|]; [|discriminate].
+  destruct (s_lines rnd cr c (d_cur d) (d_rates d) (d_lines d)) as [ils|]; [|contradiction].
+  cbn [orel] in PL.
+  set (sum := fold_left acc (map lc_total lcs) (zero_of c)).
+  set (fsum := s_sum_figs c (map il_total ils)).
+  assert (S : den sum fsum).
+  { apply sum_figs_refines. eapply Forall2_map; [|exact PL]. intros x y K. apply K. }
+  pose proof (ddcs_refine cr c sum fsum (d_discounts d) S) as DD.
+  pose proof (ddcs_refine cr c sum fsum (d_charges d) S) as CC.
+  set (dds := map (fun x => (x, ddc_amount cr c sum x)) (d_discounts d)) in *.
+  set (ccs := map (fun x => (x, ddc_amount cr c sum x)) (d_charges d)) in *.
+  set (fdds := map (fun x => (x, s_ddc rnd cr c fsum x)) (d_discounts d)) in *.
+  set (fccs := map (fun x => (x, s_ddc rnd cr c fsum x)) (d_charges d)) in *.
+  pose proof (sum_opt_refines c _ _ (pair_den_snd _ _ DD)) as OD.
+  pose proof (sum_opt_refines c _ _ (pair_den_snd _ _ CC)) as OC.
+  set (discount := sum_opt c (map snd dds)) in *. set (charge := sum_opt c (map snd ccs)) in *.
+  set (fdiscount := s_opt_sum c (map snd fdds)) in *. set (fcharge := s_opt_sum c (map snd fccs)) in *.
+  pose proof (tax_lines_refine lcs ils (d_lines d) dds fdds ccs fccs PL DD CC) as TL.
+  destruct (tax_lines lcs (d_lines d) dds ccs) as [|tl0 tls]; [discriminate|].
+  destruct (s_rows ils (d_lines d) fdds fccs) as [|r0 rs]; [inversion TL|].
+  assert (TP : Forall2 tl_den (map (prepare_tl c) (tl0 :: tls)) (map (s_prepare c) (r0 :: rs))).
+  { eapply Forall2_map; [|exact TL]. intros x y K. apply prepare_refines, K. }
+  pose proof (remove_all_refines (d_pit d) _ _ TP) as RM.
+  destruct (remove_included_all (d_pit d) (map (prepare_tl c) (tl0 :: tls))) as [tls2|]; [|discriminate].
+  destruct (s_remove_all rnd (d_pit d) (map (s_prepare c) (r0 :: rs))) as [rows2|]; [|contradiction].
+  cbn [orel] in RM.
+  pose proof (base_totals_refines cr c tls2 rows2 RM) as CT.
+  set (cts := base_totals cr c tls2) in *. set (ics := s_cats rnd cr c rows2) in *.
+  pose proof (tax_sum_refines cr c cts ics CT) as TX.
+  set (taxsum := fold_left (sum_step cr) (map (ct_calc cr c) cts) (zero_of c)) in *.
+  intros H. injection H as <-. eexists. split; [reflexivity|].
+  set (ws := fp fsum).
+  (* the chain of totals, all held at the precision of the sum *)
+  set (total0 := match discount with Some x => sub sum x | None => sum end).
+  set (total1 := match charge with Some x => add total0 x | None => total0 end).
+  assert (T0 : den total0 (mkF (fq fsum - rnd ws (oQ fdiscount)) ws)) by (apply den_sub_opt; assumption).
+  assert (T1 : den total1 (mkF (fq fsum - rnd ws (oQ fdiscount) + rnd ws (oQ fcharge)) ws)).
+  { apply (den_add_opt total0 _ charge fcharge T0 OC). }
+  set (included := match d_pit d with [] => None | _ :: _ =>
+        match find_cat (d_pit d) (map (ct_round c) (map (ct_calc cr c) cts)) with
+        | Some ct => Some (precise_or (ct_precise ct) (ct_amount ct)) | None => None end end).
+  set (fincluded := match d_pit d with [] => None | _ :: _ =>
+        match s_find_cat (d_pit d) ics with Some ct => Some (cat_amount rnd cr c ct) | None => None end end).
+  assert (IN : match included, fincluded with Some a, Some q => toQ a == q | None, None => True | _, _ => False end).
+  { unfold included, fincluded. destruct (d_pit d); [exact I|].
+    pose proof (find_cat_refines cr c (b :: b0) cts ics CT) as K.
+    destruct (find_cat _ _); destruct (s_find_cat _ _); try contradiction; exact K. }
+  set (total := match included with Some ti => sub total1 ti | None => total1 end).
+  set (ftotal := fq fsum - rnd ws (oQ fdiscount) + rnd ws (oQ fcharge)
+                 - match fincluded with Some ti => rnd ws ti | None => 0 end).
+  assert (TT : den total (mkF ftotal ws)).
+  { unfold total, ftotal. destruct included as [ti|]; destruct fincluded as [fti|]; try contradiction.
+    - apply (den_sub total1 _ ti fti T1 IN).
+    - eapply den_Qeq; [exact T1| |reflexivity]. cbn [fq]. ring. }
+  set (tax := precise_or taxsum (rescale taxsum c)).
+  assert (TA : toQ tax == s_tax rnd cr c ics) by (unfold tax; rewrite precise_or_toQ; exact TX).
+  set (twt := add total tax).
+  assert (TW : den twt (mkF (ftotal + rnd ws (s_tax rnd cr c ics)) ws)) by (apply (den_add total _ tax _ TT TA)).
+  set (payable := match d_rounding d with Some r => add twt r | None => twt end).
+  set (fpayable := ftotal + rnd ws (s_tax rnd cr c ics) + match d_rounding d with Some r => rnd ws (toQ r) | None => 0 end).
+  assert (PY : den payable (mkF fpayable ws)).
+  { unfold payable, fpayable. destruct (d_rounding d) as [r|].
+    - apply (den_add twt _ r (toQ r) TW). reflexivity.
+    - eapply den_Qeq; [exact TW| |reflexivity]. cbn [fq]. ring. }
+  assert (AD : Forall2 den (map (advance_amount c twt) (d_advances d))
+                           (map (s_advance rnd c (mkF (ftotal + rnd ws (s_tax rnd cr c ics)) ws)) (d_advances d))).
+  { induction (d_advances d) as [|r rr IH]; cbn [map]; constructor; [apply advance_refines, TW|exact IH]. }
+  pose proof (sum_opt_refines c _ _ AD) as OA.
+  set (advs := map (advance_amount c twt) (d_advances d)) in *.
+  set (fadvs := map (s_advance rnd c (mkF (ftotal + rnd ws (s_tax rnd cr c ics)) ws)) (d_advances d)) in *.
+  unfold refines.
+  cbn [t_lines t_sum t_discount t_charge t_tax_included t_total t_tax t_twt t_payable t_advances t_due
+       t_dd t_cc t_adv_rows t_dues i_lines i_sum i_discount i_charge i_tax_included i_total i_tax i_twt
+       i_payable i_advances i_due i_dd i_cc i_adv_rows i_dues].
+  split; [eapply Forall2_map; [|exact PL]; intros x y K; apply present_line_refines, K|].
+  split; [apply pres_rescale, S|].
+  split; [apply opres_rescale, OD|].
+  split; [apply opres_rescale, OC|].
+  split.
+  { fold included. fold fincluded. destruct included; destruct fincluded; try contradiction; [|exact I].
+    apply pres_rescale, IN. }
+  split; [apply pres_rescale, TT|].
+  split; [apply pres_rescale, TA|].
+  split; [apply pres_rescale, TW|].
+  split; [apply pres_rescale, PY|].
+  split; [apply opres_rescale, OA|].
+  split.
+  { destruct (sum_opt c advs) as [a|]; destruct (s_opt_sum c fadvs) as [fa|]; try contradiction; [|exact I].
+    cbn [orel] in OA. apply pres_rescale. apply (den_sub payable _ a (fq fa) PY). apply OA. }
+  split; [apply present_ddc_refines, DD|].
+  split; [apply present_ddc_refines, CC|].
+  split.
+  { eapply Forall2_map; [|exact AD]. intros x y K. apply pres_rescale, K. }
+  induction (d_dues d) as [|r rr IH]; cbn [map]; constructor; [apply due_refines, PY|exact IH].
+Qed.
